@@ -1,7 +1,8 @@
 (* C01 -- Octet transfers deliver exactly the file under any network behaviour.
-   Statements only; proofs in Tftp/TransferProofs.v and Tftp/NegotiateProofs.v. *)
+   Statements only; proofs in Tftp/TransferProofs.v, Tftp/NegotiateProofs.v and Tftp/LivenessProofs.v
+   (closed loop server + RFC client + lossy network defined in Tftp/Liveness.v). *)
 From Coq Require Import List NArith ZArith Bool.
-From NV Require Import Lib.Res Gen.Tftp Tftp.Packet Tftp.Transfer Tftp.TransferProofs Tftp.NegotiateProofs.
+From NV Require Import Lib.Res Gen.Tftp Tftp.Packet Tftp.Transfer Tftp.TransferProofs Tftp.NegotiateProofs Tftp.Liveness Tftp.LivenessProofs.
 Import ListNotations.
 Open Scope N_scope.
 
@@ -76,3 +77,45 @@ Example C01_nonvacuous :
     /\ fst (run st [EvPacket 7 [0;4;0;0] 5%Z; EvPacket 9 [0;4;0;1] 6%Z; EvPacket 7 [0;4;0;1] 7%Z]) =
        [DATA 1 [1;2;3;4;5;6;7;8]; DATA 2 [9;10]].
 Proof. cbn zeta. eexists. eexists. split; [reflexivity|]. split; reflexivity. Qed.
+
+(* ---------------- completion (closed loop: server model + RFC 1350 client + network events) ---------------- *)
+(* an accepted request starts in a fresh state: DATA 1 cached and sent, or an OACK *)
+Theorem C01_accepted_request_fresh :
+  forall (resolve : str -> resolved) (addr : N) (f : str) (m : list N) (o : options) (fl : res Z) (now : Z) (content : bytes) (st : tstate) (p : packet), resolve f = RFile content -> list_eqb_N m tftp_netascii_name = false -> do_RRQ resolve addr f m o fl now = Started st p -> 1 <= ts_block_size st /\ fresh content (ts_block_size st) st p.
+Proof. exact LivenessProofs.accepted_request_fresh. Qed.
+Print Assumptions C01_accepted_request_fresh.
+
+(* COMPLETION, loss-free lock step: the RFC client ends finished holding exactly F, the server done, having sent exactly blocks 1..|F|/B+1 (DATA-first and OACK-first starts) *)
+Theorem C01_ideal_run_completes :
+  forall (F : bytes) (B : N), 1 <= B -> N.of_nat (length F) < 65535 * B -> forall (tid : N) (st0 : tstate) (p0 : packet) (fuel : nat), fresh F B st0 p0 -> (length F / N.to_nat B + 2 <= fuel)%nat -> let '(c, st, log) := ideal B tid fuel st0 p0 in c_finished c = true /\ c_buf c = F /\ ts_done st = true /\ finished st = true /\ Inv F B st /\ log = match p0 with | DATA _ _ => [] | _ => [p0] end ++ data_seq F B 1 (length F / N.to_nat B + 1).
+Proof. exact LivenessProofs.ideal_run_completes. Qed.
+Print Assumptions C01_ideal_run_completes.
+
+(* every schedule of deliver / duplicate / lose / reorder / timer events on both directions, with no hypothesis on retries: the client buffer is the acknowledged prefix, the server never skips or alters a block *)
+Theorem C01_lossy_run_safe :
+  forall (F : bytes) (B : N), 1 <= B -> N.of_nat (length F) < 65535 * B -> forall (tid : N) (st0 : tstate) (p0 : packet) (sch : list ev), fresh F B st0 p0 -> let s := lrun B tid (sys_init st0 p0) sch in c_buf (cl s) = firstn ((N.to_nat (c_expect (cl s)) - 1) * Bn B) F /\ (c_finished (cl s) = true -> c_buf (cl s) = F) /\ cl s = client_run B tid client_init (heard s) /\ (forall (k : N) (d : bytes), In (DATA k d) (sent s) <-> 1 <= k <= ts_blocks_read (sv s) /\ d = slice F B k) /\ (forall p : packet, In p (to_cl s) -> sound F B p) /\ c_expect (cl s) <= ts_blocks_read (sv s) + 1 /\ ts_blocks_read (sv s) <= c_expect (cl s).
+Proof. exact LivenessProofs.lossy_run_safe. Qed.
+Print Assumptions C01_lossy_run_safe.
+
+(* COMPLETION under loss, duplication and reordering: if the server never reaches its give-up test and the schedule contains the needed number of effective deliveries, the client ends finished with exactly F *)
+Theorem C01_lossy_run_completes :
+  forall (F : bytes) (B : N), 1 <= B -> N.of_nat (length F) < 65535 * B -> forall (tid : N) (st0 : tstate) (p0 : packet) (sch : list ev), fresh F B st0 p0 -> never_abandoned B tid (sys_init st0 p0) sch -> (deliveries_needed F B p0 <= effective_count B tid (sys_init st0 p0) sch)%nat -> let s := lrun B tid (sys_init st0 p0) sch in c_finished (cl s) = true /\ c_buf (cl s) = F /\ cl s = client_run B tid client_init (heard s).
+Proof. exact LivenessProofs.lossy_run_completes. Qed.
+Print Assumptions C01_lossy_run_completes.
+
+(* the give-up hypothesis follows from a condition on the clock alone *)
+Theorem C01_never_silent_never_abandoned :
+  forall (B tid : N) (sch : list ev) (s : sys), clock_ok (sv s) -> never_silent B tid s sch -> never_abandoned B tid s sch.
+Proof. exact LivenessProofs.never_silent_never_abandoned. Qed.
+Print Assumptions C01_never_silent_never_abandoned.
+
+(* a lost packet is always recoverable by the retransmission timers *)
+Theorem C01_recover_by_client_timer :
+  forall (F : bytes) (B : N), 1 <= B -> N.of_nat (length F) < 65535 * B -> forall (tid : N) (s : sys) (now : Z), LInv F B tid s -> Alive s -> c_finished (cl s) = false -> cl_last s <> None -> let sch := if ts_blocks_read (sv s) =? c_expect (cl s) then [CliTimer; DeliverAck 0 now; DeliverData 0] else [CliTimer; DeliverAck 0 now] in never_abandoned B tid s sch /\ effective_count B tid s sch = 1%nat.
+Proof. exact LivenessProofs.recover_by_client_timer. Qed.
+Print Assumptions C01_recover_by_client_timer.
+
+Theorem C01_recover_by_server_timer :
+  forall (F : bytes) (B : N), 1 <= B -> N.of_nat (length F) < 65535 * B -> forall (tid : N) (s : sys) (now ls : Z), LInv F B tid s -> Alive s -> c_finished (cl s) = false -> ts_blocks_read (sv s) = c_expect (cl s) -> ts_last_send (sv s) = Some ls -> (ts_timeout (sv s) < now - ts_last_recv (sv s))%Z -> (ts_timeout (sv s) < now - ls)%Z -> (ls - ts_last_recv (sv s) <= ts_timeout (sv s) * 5)%Z -> never_abandoned B tid s [SrvTimer now; DeliverData 0] /\ effective_count B tid s [SrvTimer now; DeliverData 0] = 1%nat.
+Proof. exact LivenessProofs.recover_by_server_timer. Qed.
+Print Assumptions C01_recover_by_server_timer.
